@@ -25,7 +25,10 @@ function err_info(e) {
     if (e === null || e === undefined)
         return null;
     let cls = (e && e.constructor && e.constructor.name) || typeof e;
-    return {cls: cls, msg: String(e && e.message !== undefined ? e.message : e)};
+    // the type the public classifier of the package gives the exception (what its command line prints as `Error [type]`)
+    let kind = null;
+    try { kind = rbql.exception_to_error_info(e)[0]; } catch (e2) { kind = 'classifier raised: ' + String(e2 && e2.message || e2); }
+    return {cls: cls, msg: String(e && e.message !== undefined ? e.message : e), kind: kind};
 }
 
 function tmp_file(bytes) {
